@@ -64,7 +64,8 @@ def main() -> None:
             if clean != 0 or mut == 0 or '1322 passed' not in suite or '11 failed' not in suite:
                 print('verification failed, skipped:', pd, m.groups())
                 continue
-            dst = SEEDED / f'{pd.parent.name}-{pd.name}'
+            tag = '-r2' if 'seedout2' in str(src) else ''
+            dst = SEEDED / f'{pd.parent.name}{tag}-{pd.name}'
             dst.mkdir(parents=True, exist_ok=True)
             for fn in ('patch.diff', 'demo.py', 'notes.md'):
                 if (pd / fn).exists():
@@ -72,7 +73,7 @@ def main() -> None:
             notes = (pd / 'notes.md').read_text() if (pd / 'notes.md').exists() else ''
             meta = {
                 'property': pd.parent.name,
-                'origin': 'independent fault-seeding sub-agent given only the property text and a scratch worktree of /repo',
+                'origin': 'independent fault-seeding sub-agent given only the property text and a scratch worktree of /repo' + (' (round 2: launched after the checks were finished, asked to avoid the most obvious fault sites)' if 'seedout2' in str(src) else ''),
                 'needs_to_manifest': _needs(notes),
                 'confirmed': {
                     'patch_applies': True,
